@@ -12,8 +12,21 @@ namespace Ecal.Props.C16
 open Ecal.DebugCmd
 
 /-- The model dispatches on exactly the keys of `DebugCommandsMap` (regenerated from the Go
-    source on every run), bound to the same Go types, with the same argument-count tests. -/
-theorem vocabulary_matches : Ecal.Gen.C16.commands = vocabulary := by decide
+    source on every run), bound to the same Go types. -/
+theorem vocabulary_matches : Ecal.Gen.C16.commands.map (fun e => (e.1, e.2.1)) = vocabulary := by decide
+
+/-- The argument-count tests, as the extractor EVALUATES them for 0..5 arguments (whatever
+    their source text), do not contradict `Cmd.rejects`. -/
+theorem arg_tests_not_refuted :
+    (Ecal.Gen.C16.commands.zip Cmd.all).all (fun p => !tableRefuted p.1.2.2 p.2.rejectTable) = true := by decide
+
+/-- … and `Cmd.rejects` is what the model's `Run` does: a rejected call returns the usage error
+    at once, whatever the state (no lock, no table touched). -/
+theorem rejects_is_what_run_does (g : Guards) (env : Env) (c : Cmd) (args : List Str) (s : DbgState)
+    (h : c.rejects args.length = true) : ∃ s', c.run g env args s = .ok err s' ∧ s' = s := by
+  cases c <;> simp [Cmd.rejects] at h <;>
+    simp [Cmd.run, runSetBreak, runRmBreak, runCont, runDescribe, runExtract, runInject, h, pure] <;>
+    first | omega | (intro h'; omega) | skip
 
 /-- The reachability invariant: every call-stack entry is a node with a token, every
     interrogation state carries the node and the scope its thread stopped at, and no
@@ -28,39 +41,52 @@ def Answers : Reply → Prop
   | .notJson => False
   | .panic _ => False
   | .deadlock => False
+  | .evaluating => False
 
 /-- A fresh debugger (`NewECALDebugger`, with or without a global scope) satisfies the invariant. -/
 theorem inv_init (gs : Bool) (globals : List Str) : Inv (init gs globals) := by
   refine ⟨⟨?_, ?_⟩, rfl⟩ <;> intro p hp <;> simp [init] at hp
 
 theorem handle_ok (env : Env) (s : DbgState) (line : Str) (h : Inv s) :
-    ∃ o s', handleInput repaired env line s = .ok o s' ∧ Inv s' ∧ o.1 ≠ .unencodable := by
+    (∃ o s', handleInput repaired env line s = .ok o s' ∧ Inv s' ∧ o.1 ≠ .unencodable) ∨
+    (∃ s', handleInput repaired env line s = .evaluating s' ∧ Inv s') := by
   have hw := handleInput_safe env line h.1 h.2
   unfold wp at hw
   cases hr : handleInput repaired env line s with
-  | ok o s' => rw [hr] at hw; exact ⟨o, s', rfl, hw.1, hw.2⟩
+  | ok o s' => rw [hr] at hw; exact .inl ⟨o, s', rfl, hw.1, hw.2⟩
+  | evaluating s' => rw [hr] at hw; exact .inr ⟨s', rfl, hw⟩
   | panic p s' => rw [hr] at hw; exact hw.elim
   | deadlock s' => rw [hr] at hw; exact hw.elim
 
 /-- **Never panics.** In every state satisfying the invariant, for every input line (any
-    byte string) and every oracle behaviour, the reply is a result or an error: no index,
-    slice or nil-dereference primitive of the handler fails and the lock is not taken twice. -/
+    byte string) and every oracle behaviour, the command returns a result or an error — no
+    index, slice or nil-dereference primitive of the handler fails, the lock is not taken twice
+    (in particular not by an `inject` expression that calls back into the debugger) — or it is
+    `inject` still evaluating its expression (`evaluating` is produced only by `evalExpr` on an
+    expression the oracle says does not return). What json.Marshal does with the result is
+    modelled only for error data (`Shape.unencodable`); otherwise it is tested, not proved. -/
 theorem handle_never_panics (env : Env) (s : DbgState) (line : Str) (h : Inv s) :
-    Answers (handle env s line).2 := by
-  obtain ⟨o, s', hr, _, ho⟩ := handle_ok env s line h
-  simp only [handle, handleG, hr, Out.reply]
-  by_cases h2 : o.2 = true
-  · simp [h2, Answers]
-  · simp [h2, ho, Answers]
+    Answers (handle env s line).2 ∨ (handle env s line).2 = .evaluating := by
+  rcases handle_ok env s line h with ⟨o, s', hr, _, ho⟩ | ⟨s', hr, _⟩
+  · left
+    simp only [handle, handleG, hr, Out.reply]
+    by_cases h2 : o.2 = true
+    · simp [h2, Answers]
+    · simp [h2, ho, Answers]
+  · right
+    simp only [handle, handleG, hr]
 
 /-- Every command preserves the invariant. -/
 theorem handle_preserves_inv (env : Env) (s : DbgState) (line : Str) (h : Inv s) :
     Inv (handle env s line).1 := by
-  obtain ⟨o, s', hr, hi, _⟩ := handle_ok env s line h
-  simpa only [handle, handleG, hr] using hi
+  rcases handle_ok env s line h with ⟨o, s', hr, hi, _⟩ | ⟨s', hr, hi⟩
+  · simpa only [handle, handleG, hr] using hi
+  · simpa only [handle, handleG, hr] using hi
 
 /-- **Lock released.** After every command — on every path, error returns included — the
-    debugger's lock is free again. -/
+    debugger's lock is free again; and while `inject` evaluates its expression (reply
+    `evaluating`: the state is the one every other command sees meanwhile) no debugger lock is
+    held either: **no command holds a debugger lock across an evaluation**. -/
 theorem lock_released (env : Env) (s : DbgState) (line : Str) (h : Inv s) :
     (handle env s line).1.lock = 0 := (handle_preserves_inv env s line h).2
 
@@ -72,10 +98,10 @@ def suspendedAtTop : DbgState :=
     breakPoints := [], sources := [], breakOnStart := false, ownersSet := true, mutexLogSet := true,
     threadPoolSet := true, globalScope := true, globals := [], lock := 0 }
 
-/-- Even the code before a44f74f releases the lock when it panics (the unlock is deferred):
-    for both guard settings the lock count after a command equals the one before. -/
+/-- Witness (one state, one input — a test, not a theorem about all inputs): the code before
+    a44f74f panics in `cont 1 stepout` at depth 0 with the lock released (the unlock is deferred). -/
 theorem lock_released_even_unrepaired :
-    (handleG { lockstateNil := false, stepOutLen := false, errDataConv := false } ⟨fun _ => true, fun _ _ => true⟩
+    (handleG { lockstateNil := false, stepOutLen := false, errDataConv := false, injectOutside := false } ⟨fun _ => .ok, fun _ _ => true⟩
       suspendedAtTop
       [99, 111, 110, 116, 32, 49, 32, 115, 116, 101, 112, 111, 117, 116]).1.lock = 0 := by decide
 
@@ -152,15 +178,9 @@ theorem still_answers (env env' : Env) (s : DbgState) (line : Str) (h : Inv s) :
   generalize (handle env s line).1 = t at hi
   have hf : fields [115, 116, 97, 116, 117, 115] = [[115, 116, 97, 116, 117, 115]] := by decide
   have hc : lookupCmd [115, 116, 97, 116, 117, 115] = some .status := by decide
-  have hw := statusOf_safe hi.1 hi.2
-  unfold wp at hw
   have hrun : handleInput repaired env' [115, 116, 97, 116, 117, 115] t = statusOf repaired t := by
     simp [handleInput, hf, hc, idx, Cmd.run, bind, pure]
-  simp only [handle, handleG, hrun]
-  cases hr : statusOf repaired t with
-  | ok o t' => rw [hr] at hw; simp [hw.2, Out.reply]
-  | panic p t' => rw [hr] at hw; exact hw.elim
-  | deadlock t' => rw [hr] at hw; exact hw.elim
+  simp [handle, handleG, hrun, statusOf_eq hi.1 hi.2, Out.reply]
 
 /-- the states a debugger can be in: created, then any interleaving of command lines and
     evaluator events -/
@@ -178,7 +198,7 @@ theorem reachable_inv {s : DbgState} (h : Reachable s) : Inv s := by
 /-- **The property**: in every reachable debugger state, every input line gets a result or
     an error, the lock is free afterwards and a following `status` is answered. -/
 theorem command_interface_total {s : DbgState} (hr : Reachable s) (env env' : Env) (line : Str) :
-    Answers (handle env s line).2 ∧ (handle env s line).1.lock = 0 ∧
+    (Answers (handle env s line).2 ∨ (handle env s line).2 = .evaluating) ∧ (handle env s line).1.lock = 0 ∧
     (handle env' (handle env s line).1 [115, 116, 97, 116, 117, 115]).2 = .ok .status :=
   ⟨handle_never_panics env s line (reachable_inv hr), lock_released env s line (reachable_inv hr),
    still_answers env env' s line (reachable_inv hr)⟩
@@ -186,7 +206,7 @@ theorem command_interface_total {s : DbgState} (hr : Reachable s) (env env' : En
 example : Reachable suspendedAtTop :=
   .event (.advance 1 0 (.suspended false true true [])) (.event .setRefs (.event (.start 1) (.init true []) rfl) rfl) rfl
 
-def anyEnv : Env := ⟨fun _ => true, fun _ _ => true⟩
+def anyEnv : Env := ⟨fun _ => .ok, fun _ _ => true⟩
 
 /-- non-vacuity: the repaired code answers the two critical inputs -/
 example : (handle anyEnv (init true []) [108, 111, 99, 107, 115, 116, 97, 116, 101]).2 = .ok .lockstate := by decide
@@ -196,16 +216,39 @@ example : (handle anyEnv suspendedAtTop
 /-- **The `lockstate` guard is necessary**: without the nil checks added by a44f74f,
     `lockstate` before any evaluation dereferences the unset mutex log. -/
 theorem unrepaired_lockstate_panics :
-    (handleG { lockstateNil := false, stepOutLen := true, errDataConv := true } anyEnv (init true [])
+    (handleG { lockstateNil := false, stepOutLen := true, errDataConv := true, injectOutside := true } anyEnv (init true [])
       [108, 111, 99, 107, 115, 116, 97, 116, 101]).2 = .panic "LockState: ed.mutexLog.StringSlice()" := by
   decide
 
 /-- **The step-out guard is necessary**: without `len(stack) > 0`, `cont 1 stepout` for a
     thread suspended at call depth 0 slices `stack[:-1]`. -/
 theorem unrepaired_stepout_panics :
-    (handleG { lockstateNil := true, stepOutLen := false, errDataConv := true } anyEnv suspendedAtTop
+    (handleG { lockstateNil := true, stepOutLen := false, errDataConv := true, injectOutside := true } anyEnv suspendedAtTop
       [99, 111, 110, 116, 32, 49, 32, 115, 116, 101, 112, 111, 117, 116]).2
       = .panic "Continue: stack[:len(stack)-1]" := by
+  decide
+
+/-- the `inject` expression calls a function of the debugged program / does not return -/
+def visitingEnv : Env := ⟨fun _ => .visits true, fun _ _ => true⟩
+def divergingEnv : Env := ⟨fun _ => .diverges, fun _ _ => true⟩
+
+/-- `inject 1 x f1(1)` -/
+def injectLine : Str := [105, 110, 106, 101, 99, 116, 32, 49, 32, 120, 32, 102, 49, 40, 49, 41]
+
+/-- non-vacuity: the repaired code survives an expression that visits the debugger, and is
+    `evaluating` with the lock free for one that does not return -/
+example : (handle visitingEnv suspendedAtTop injectLine).2 = .ok .null := by decide
+example : (handle divergingEnv suspendedAtTop injectLine).2 = .evaluating ∧
+    (handle divergingEnv suspendedAtTop injectLine).1.lock = 0 := by decide
+
+/-- **Evaluating outside the lock is necessary**: with the expression evaluated under
+    `ed.lock.Lock()` (before fixes/C16-inject-eval-outside-lock), an expression that calls a
+    function declared by the debugged program re-enters the debugger (VisitState → RLock) and
+    the command deadlocks with itself; one that does not return keeps the lock for ever, so no
+    other command is answered any more. -/
+theorem unrepaired_inject_deadlocks :
+    (handleG { repaired with injectOutside := false } visitingEnv suspendedAtTop injectLine).2 = .deadlock ∧
+    (handleG { repaired with injectOutside := false } divergingEnv suspendedAtTop injectLine).1.lock = 1 := by
   decide
 
 /-- a thread suspended by break-on-error whose error carries an ECAL map (or a non-finite
@@ -225,9 +268,9 @@ example : (handle anyEnv suspendedOnMapError [100, 101, 115, 99, 114, 105, 98, 1
     passing `Data` through unconverted, `status` and `describe 1` return an object json.Marshal
     rejects while a thread is suspended on an error carrying an ECAL map. -/
 theorem unrepaired_errdata_not_json :
-    (handleG { lockstateNil := true, stepOutLen := true, errDataConv := false } anyEnv suspendedOnMapError
+    (handleG { lockstateNil := true, stepOutLen := true, errDataConv := false, injectOutside := true } anyEnv suspendedOnMapError
       [115, 116, 97, 116, 117, 115]).2 = .notJson ∧
-    (handleG { lockstateNil := true, stepOutLen := true, errDataConv := false } anyEnv suspendedOnMapError
+    (handleG { lockstateNil := true, stepOutLen := true, errDataConv := false, injectOutside := true } anyEnv suspendedOnMapError
       [100, 101, 115, 99, 114, 105, 98, 101, 32, 49]).2 = .notJson := by
   decide
 
@@ -243,6 +286,24 @@ theorem no_lock_held_while_suspended (i : VisitIn) :
   · cases k <;> cases t <;> cases sk <;> cases bp <;> cases bos <;> decide
   · cases c <;> cases d <;> cases k <;> cases t <;> cases sk <;> cases bp <;> cases bos <;> decide
 
+/-- The same for the two other methods an evaluating thread calls: VisitStepInState (which
+    gives the lock up around a nested VisitState) and VisitStepOutState (which gives it up around
+    the wait of break-on-error): the lock is held zero times at every wait point and at exit. -/
+theorem no_lock_held_while_suspended_step (stop onError : Bool) (i : VisitIn) :
+    (∀ h ∈ heldAtWaits (visitStepInEvents false stop i) 0, h = 0) ∧
+    heldAfter (visitStepInEvents false stop i) 0 = 0 ∧
+    (∀ h ∈ heldAtWaits (visitStepOutEvents true onError) 0, h = 0) ∧
+    heldAfter (visitStepOutEvents true onError) 0 = 0 := by
+  obtain ⟨k, t, sk, is, bp, bos⟩ := i
+  rcases is with _ | ⟨c, d⟩
+  · cases stop <;> cases onError <;> cases k <;> cases t <;> cases sk <;> cases bp <;> cases bos <;> decide
+  · cases stop <;> cases onError <;> cases c <;> cases d <;> cases k <;> cases t <;> cases sk <;> cases bp <;>
+      cases bos <;> decide
+
+/-- waiting for the continue command without giving the lock up (VisitStepOutState) is the
+    kind of defect this excludes -/
+example : heldAtWaits (visitStepOutEvents false true) 0 = [1] := by decide
+
 /-- non-vacuity: a thread stepping out that reaches an active break point does wait -/
 example : heldAtWaits (visitEvents false
     { known := true, hasToken := true, sourceKnown := true, istate := some (.stepOut, true),
@@ -256,8 +317,13 @@ theorem deferred_unlock_holds_lock_while_suspended :
       { known := true, hasToken := true, sourceKnown := true, istate := some (.stepOut, true),
         bpActive := true, breakOnStart := false }) 0 = [1] := by decide
 
-/-- VisitState in the Go source contains no `defer` (regenerated on every run): its unlocks
-    are where the model has them. -/
-theorem visitstate_has_no_defer : Ecal.Gen.C16.visitStateDefers = 0 := by decide
+/-- **The lock discipline the model assumes is not refuted by the source**: for every method
+    of `*ecalDebugger` (regenerated from interpreter/debug.go on every run by following all paths
+    with the number of holds, calls into methods of the same receiver included) no path reaches a
+    wait point, an evaluation or a second acquisition with the lock held, none leaves with the
+    lock held. This is what `locked` (command side), `evalExpr` outside `locked` (inject) and
+    `visitEvents` / `visitStepInEvents` / `visitStepOutEvents` (thread side) state in the model.
+    "unknown" verdicts are not obligations (they amplify the search). -/
+theorem lock_discipline_not_refuted : Ecal.Gen.C16.lockRefuted = [] := by decide
 
 end Ecal.Props.C16
